@@ -40,6 +40,12 @@ CHECKS = {
    text="For generated programs (macros, call blocks, includes, imports, recursive loops, inheritance, failing programs) the success threshold T is bisected and every budget in [T-40, T+16], sampled budgets below and the extremes up to u64::MAX must give exactly the unlimited outcome (>= T) or an out-of-fuel error (< T); fuel_levels must add up to the budget, equal T-1 and be repeatable; fuel cost must be additive over sequences and linear in the number of nested evaluations.",
    note="A budget of 400000 stands in for 'no limit' during bisection; more expensive programs are skipped.",
    design="3/C13"),
+ "C14": dict(
+   technique="property-based testing: generated failing templates (structured programs with failing pieces, character-level mutations, truncations), validity oracle on every located error of the cause chain, metamorphic relation under vertical/horizontal padding, enumerated planted errors with known lines",
+   level="exploration",
+   text="For every error of the cause chain that names a template the line must lie inside that template's source and a reported range must be a valid slice (bounds, char boundaries) on the reported line; inserting N lines above / M characters in front must shift line/range by exactly that and change nothing else; all formatting forms must complete. A division by zero planted in 29 expression positions and 12 failing statements that end their line (x surroundings x offsets, enumerated) must be reported on its own line.",
+   note="Vertical shifts are only asserted while the padded template stays within 65 535 lines (the property's domain).",
+   design="3/C14"),
  "C16": dict(
    technique="property-based testing: round-trip oracle over generated serde shape trees (every variant/struct/map-key shape), identity oracle for embedded Values, differential of tojson / JSON auto-escape output against an independent strict RFC 8259 parser",
    level="exploration",
